@@ -6,6 +6,8 @@ TECH="contract-based deductive verification (VCs generated from go/ssa, discharg
 checks={
  "C13":("proof","Deductive proof, per function, of contracts on the real bit writers/readers in /repo/bits: every write emits exactly the bytes of the packed value; the emulation-prevention writer is checked against the standard's decoder run as an independent monitor in the trusted writer model (never emits 00 00 0{0,1,2}, escapes only where required, decoded payload == intended payload); the emulation-removing reader returns the standard decoder's payload with byte/bit counters in the escaped stream; Exp-Golomb writer length in closed form; all loops by invariant, machine integers, no bound.",
         "Trusted: govc's SSA->SMT translation, the solvers, the models of io.Writer.Write / binary.Read / Seek (abstract streams with the standard's EBSP decoder as ghost monitor). Round trips over arbitrary call sequences are the composition of the per-call contracts (prefix preservation), argued, not one mechanised theorem; Exp-Golomb value round trip and non-seekable MoreRbspData not decided.", TECH),
+ "C04":("proof","Deductive proof of panic-freedom (index, slice, nil, division, make, shift, type assertion), termination and -- for the count-driven slice-reader decoders -- a linear allocation bound, for 200+ box decoders of package mp4 on both decode paths, under one schema contract (header well-formed, payload inside the reader) that is itself an obligation at the registry call in DecodeBoxSR; reader-path decoders are reduced to their slice-reader twins through the proved contract of readBoxBody.",
+        "21 decoders, DecodeFileSR, Info/Encode of decoded trees, File.AddChild and the ISM options are outside the claim (listed in the evidence); boxes other than mdat < 4 GiB; registry unmodified; child type follows from its name (assumed at 3 type assertions).", TECH),
  "C16":("proof","Deductive proof of panic-freedom (index, slice, nil, division, make, shift, type assertion, devirtualisation) and termination (loop variants, bounded by the abstract finite reader) for 330+ functions of avc, hevc, sei, aac, av1 and the bit readers, for every input byte string; loop invariants by Houdini over templates plus written ones; 30 genuine defects found this way were repaired by fix: commits and are now proved absent.",
         "Functions listed under not_decided in the evidence (22 hevc parsers, 4 avc/hevc scanners, writers) are outside the claim; heap/time budgets are covered only through termination measures, allocation bounds are not generated; samples < 4 GiB; maps without nil pointers.", TECH),
  "C20":("other","Whole-library frame obligations computed from the SSA of every function: (F1) no store to package-level state outside init and the two registry mutators, (F2) no exported function writes through a []byte parameter except the documented in-place transformers. These are the sufficient conditions the property names; schedules themselves are not quantified over.",
